@@ -18,6 +18,7 @@ from common import Check, Driver, Infra, VERIF, sarpy_guard
 import segtree
 import segmodel
 import c01
+import dispatch
 
 REQUIRED = ['scatter_length', 'writes_commute_of_disjoint', 'partition_history', 'history_eq_whole_write',
             'scatter_get', 'scatter_untouched', 'fully_written_iff', 'store_complete_iff']
@@ -369,8 +370,9 @@ def run(tier):
     rng = chk.rng
     import gen_slices
     gen_info = gen_slices.generate(os.path.join(VERIF, 'lean', 'SarpyModel', 'Gen', 'Slices.lean'))
-    broken = chk.prove(['SarpyModel.Props.C07', 'SarpyModel.Props.C01', segmodel.WSEG_MODULE, 'SarpyModel.Drivers'], 'SarpyModel.Props.C07',
-                       'Sarpy.Props.C07', REQUIRED, gen_info)
+    gen_info['dispatch'] = dispatch.regen()
+    broken = chk.prove(['SarpyModel.Props.C07', 'SarpyModel.Props.C01', segmodel.WSEG_MODULE, 'SarpyModel.Drivers'] + dispatch.targets_writes(),
+                       'SarpyModel.Props.C07', 'Sarpy.Props.C07', REQUIRED, gen_info, extra=dispatch.extra_writes())
     # the kernel bridges live in C01's namespace: they are obligations of this property too
     if not broken:
         from common import audit, ALLOWED_AXIOMS
@@ -449,14 +451,29 @@ def run(tier):
     except Infra as e:
         broken.append('model driver does not build/run: ' + str(e)[:300])
 
+    # ---- the writer dispatch layer (BaseWriter.__call__ / write / write_raw / write_chip; SIDDWriter / NITFWriter with several images)
+    try:
+        dsp = dispatch.run_writes(chk, tier)
+        fails += dsp['fails']
+        disagreements += dsp['disagreements']
+        broken += dsp['broken']
+        chk.coverage['dispatch'] = dsp['stats']
+        stats['dispatch_puts'] = dsp['evaluations']
+        seen |= {('dispatch', k) for k in range(dsp['stats'].get('classes', 0))}
+    except Infra as e:
+        broken.append('dispatch model driver does not build/run: ' + str(e)[:300])
+
     chk.coverage.update({
-        'evaluations': stats.get('writes', 0) + len(drv_jobs) + chk.coverage.get('segment_model', {}).get('writes', 0),
+        'evaluations': stats.get('writes', 0) + len(drv_jobs) + chk.coverage.get('segment_model', {}).get('writes', 0) + stats.get('dispatch_puts', 0),
         'distinct_nontrivial': len(seen),
         'rule': 'random writable segment trees (array/memmap leaves, identity and complex IQ/QI/MP/PM formats, subset (formatted / raw basis) incl. padded blocks, '
                 'reorientation, band and block aggregates) x random partitions of the formatted index set into rectangular chunks '
                 '(contiguous intervals and strided lattices per axis) x random chunk order x addressing mode (start_indices / subscript); '
                 'distinct = distinct (tree class, chunk count, strided?) triples; each history has >= 1 write and is compared with a whole-image write, '
-                'with a numpy provenance expectation, with a read-back, and replayed in the Lean scatter model',
+                'with a numpy provenance expectation, with a read-back, and replayed in the Lean scatter model; '
+                'writer dispatch: BaseWriter over 1-4 recording segments (orientations, a segment without inverse format) x __call__ / write / write_raw / write_chip '
+                'by keyword and by position x index (in range, negative, out of range) x start_indices / subscript / neither; SIDDWriter and NITFWriter files with 2-3 '
+                'images written in interleaved row chunks through every entry point and re-read',
         'samples': [{'tree': j[0]['tree'], 'chunks': j[0]['chunks'][:4], 'modes': j[0]['modes'][:4]} for j in drv_jobs[:2]],
         'segment_stats': stats,
         'traces_validated_against_impl': len(drv_jobs),
@@ -472,6 +489,9 @@ def run(tier):
         'real / imaginary / magnitude / phase part of one chunk element); the store theorems (write_then_full, chunks_commute) are stated for '
         'trees without a complex format, the routing theorem write_routesG for all writable trees',
         'numpy.memmap flushing and the OS page cache are outside the model',
+        'writer dispatch layer: Spec/Dispatch.lean (dispatchPut) is tied to BaseWriter by the translator (Gen/Dispatch.lean, Bridge/Dispatch.lean) and by '
+        'the observed hand-over to recording data segments (segment, write vs write_raw, start_indices, subscript); the inference of the subscript from '
+        'start_indices inside the segment (_infer_subscript_for_write) is covered by the numpy store oracle, not modelled',
     ]
     # SubsetSegment._from_parent_subscript (subset coordinates of a parent subscript, used when writing through subsets of subsets) is
     # regenerated from the source and bridged: Bridge/Kernels2.lean gen_from_parent_axis / fromParentAxis_spec
@@ -513,6 +533,8 @@ def run(tier):
 
 def replay(path):
     case = json.load(open(path))['case']
+    if case['kind'] in ('dispatch', 'dispatch-write'):
+        return dispatch.replay_case(case)
     if case['kind'] == 'kernel':
         return c01.replay(path)
     fails = []
